@@ -584,6 +584,9 @@ func (g *gen) genFields(kind string) []*Field {
 		switch kind {
 		case "struct", "exception":
 			f.Req = Req(g.intn(0, 2, "req"))
+			if n >= 9 && g.p(1, 2, "widereq") {
+				f.Req = ReqRequired // wide structs carry many required fields
+			}
 		case "union":
 			if g.p(1, 4, "unionreq") {
 				f.Req = ReqOptional
